@@ -42,12 +42,13 @@ Apply(st, op, x, y) ==
     [] op = "count"  -> <<st, RInt(st.docs)>>
 
 StoreOps == {"create", "get", "update", "delete", "length", "all", "incr", "kvset", "kvget", "push", "llen", "insert", "count"}
-PureRoutes == {"sum", "gen", "echo"}
+PureRoutes == {"sum", "gen", "echo", "cold"}     \* cold: a read of an untouched key through a method spelling no request has used yet
 
 \* what a pure route answers when it is alone
 Solo(job) ==
   CASE job.route = "sum"  -> IF job.x > MaxDepth THEN RErr("depth") ELSE RInt((job.x * (job.x + 1)) \div 2)
     [] job.route = "gen"  -> RInt(job.x)
     [] job.route = "echo" -> RInt(job.x)
+    [] job.route = "cold" -> RInt(job.x)
 
 ====================================================================================
